@@ -2,6 +2,11 @@ import Norad.Props.C18
 #print axioms C18.ds_roundtrip
 #print axioms C18.ds_roundtrip_processing_last
 #print axioms C18.ds_roundtrip_counterexample_empty_map
+#print axioms C18.ds_spec_reader_finds_values
+#print axioms C18.ds_spec_reader_no_trim
+#print axioms C18.ds_spec_reader_counterexample_attr
+#print axioms C18.ds_spec_reader_counterexample_cr
+#print axioms C18.ds_spec_reader_counterexample_forbidden
 #print axioms C18.plist_glue_roundtrip
 #print axioms C18.plist_glue_roundtrip_dict
 #print axioms C18.plist_glue_roundtrip_counterexample
